@@ -11,7 +11,7 @@ from .core import PyExc, Unsupported, PathPruned, sub_explore
 from .expr import Frame, GenV
 from .ops import conc_bool, conc_int, as_int_term, is_num, mk
 from .stmt import BUILTIN_EXC
-from .values import (RecurV, RefV, BoolV, IntV, RealV, StrV, NoneV, NONE, TupleV, ListV, SeqV, SetV, DictV, ObjV,
+from .values import (UninterpV, RecurV, RefV, BoolV, IntV, RealV, StrV, NoneV, NONE, TupleV, ListV, SeqV, SetV, DictV, ObjV,
                      ClassV, FuncV, BoundV, BuiltinV, ModuleV, RangeV, SuperV, V)
 
 BUILTIN_NAMES = {
@@ -20,7 +20,7 @@ BUILTIN_NAMES = {
     "dict", "type", "hasattr", "getattr", "setattr", "print", "repr", "id", "iter", "next", "map",
     "filter", "open", "round", "divmod", "super", "object", "callable", "hash",
     # dsl helpers
-    "implies", "iff", "forall", "exists", "count", "isnone",
+    "implies", "iff", "forall", "exists", "count", "isnone", "forall_str",
     # well-known imports
     "xor", "defaultdict", "deepcopy",
 }
@@ -118,6 +118,17 @@ class CallMixin:
             pyobj = getattr(importlib.import_module(module.split(":", 1)[1]), name, None)
             if isinstance(pyobj, dsl.Recurrence):
                 result = RecurV(pyobj)
+            if isinstance(pyobj, dsl.Uninterpreted):
+                result = UninterpV(pyobj)
+        if result is None and module.startswith("sidecar:"):
+            # real classes of the repository may be constructed inside `derived` builders
+            try:
+                info = self.world.find_class(name)
+            except KeyError:
+                info = None
+            if info is not None:
+                result = ClassV(name)
+                result.module = info.module
         if result is None:
             if module.startswith("sidecar:"):
                 # dsl type descriptors etc. referenced from specs are not values of the verified world
@@ -334,6 +345,10 @@ class CallMixin:
         step_fv = self.sidecar_function(rec.step)
         done = ctx.recur_done.setdefault((rec.name, key), set())
         value = self.recurrence_value(rec, key, z3.simplify(index))
+        if ctx.quant_depth:
+            # the index mentions a bound variable: no instantiation here (instances come from the
+            # ground uses of the recurrence on the path)
+            return value
         pending = []
         if "init" not in done:
             done.add("init")
@@ -371,7 +386,12 @@ class CallMixin:
         if ext.returns is None:
             return NONE
         ctx.havoc_used = True
-        return self.fresh_resolved(ext.returns, ctx.fresh_name(f"ext_{label}"))
+        result = self.fresh_resolved(ext.returns, ctx.fresh_name(f"ext_{label}"))
+        if ext.ensures is not None:
+            funcv = self.sidecar_function(ext.ensures)
+            t = self.truth(self.pure_call(funcv, list(args), {"result": result}))
+            ctx.assume(t if not isinstance(t, bool) else z3.BoolVal(t))
+        return result
 
     def class_const(self, cls: Any, name: str) -> V:
         key = (cls.module, cls.name, name)
@@ -470,7 +490,8 @@ class CallMixin:
             return self.call_function(func, args, kwargs, line)
         if isinstance(func, BoundV):
             if isinstance(func.func, dsl.External):
-                return self.call_external(func.func, f"{getattr(getattr(func.obj, 'desc', None), 'cls', '?')}.method", args, line)
+                return self.call_external(func.func, f"{getattr(getattr(func.obj, 'desc', None), 'cls', '?')}.method",
+                                          [func.obj] + args + [v for _, v in sorted(kwargs.items())], line)
             if isinstance(func.func, FuncV):
                 return self.call_function(func.func, [func.obj] + args, kwargs, line)
             return self.call_method_builtin(func.obj, func.func, args, kwargs, line)
@@ -478,6 +499,12 @@ class CallMixin:
             return self.construct(func, args, kwargs, line)
         if isinstance(func, RecurV):
             return self.call_recurrence(func.rec, args, line)
+        if isinstance(func, UninterpV):
+            decl = func.decl
+            ets = [self.elem_type(a) for a in decl.args]
+            ret = self.elem_type(decl.returns)
+            fn = z3.Function(f"abstract:{decl.name}", *[et.sort for et in ets], ret.sort)
+            return self.unpack(fn(*[self.pack(v, et) for v, et in zip(args, ets)]), ret)
         raise Unsupported(f"call of {func!r} (line {line})")
 
     def bind(self, fv: FuncV, args: list[V], kwargs: dict[str, V], line: int) -> dict[str, V]:
@@ -675,6 +702,14 @@ class CallMixin:
             length = desc.lo + self.ctx.decide(desc.hi - desc.lo + 1)
             items = [self.fresh_resolved(desc.elem, f"{name}[{i}]", is_input) for i in range(length)]
             return TupleV(items) if desc.as_tuple else ListV(items)
+        if isinstance(desc, dsl.FiniteSet):
+            size = desc.lo + self.ctx.decide(desc.hi - desc.lo + 1)
+            items = [self.fresh_resolved(desc.elem, f"{name}{{{i}}}", is_input) for i in range(size)]
+            for i in range(size):
+                for j in range(i):
+                    t = self.eq(items[i], items[j])
+                    self.ctx.assume(z3.Not(t) if not isinstance(t, bool) else z3.BoolVal(not t))
+            return SetV(items=[(item, z3.BoolVal(True)) for item in items])
         if isinstance(desc, dsl.Rec):
             fields = {fname: self.fresh_resolved(ftype, f"{name}.{fname}", is_input)
                       for fname, ftype in desc.fields.items()}
